@@ -128,25 +128,10 @@ EndFails(run, e) ==
    THEN Bad(\E nn \in run.notifies : nn[1] > run.lastTick.seq, "lost_wakeup_tick_reported_running_but_no_notify_followed")
    ELSE {})
 
-\* ---- known findings (known_findings.json): the two schedule signatures of the recorded lost wake-up ------
-\* KF-C13-flag-read-before-arm: the tick's lock attempt timed out and it re-armed the notification flag, but the
-\* run had already performed its single end-of-run read of the flag (value false) after the tick cleared it.
-KfFlagReadBeforeArm(run) ==
-  LET t0 == run.lastTick.seq  t1 == run.lastTick.rseq IN
-  \E a \in run.snArms : a > t0 /\ a < t1 /\
-     (\E f \in run.tryFails : f > t0 /\ f < a) /\
-     (\E l \in run.snLoads : l[1] > t0 /\ l[1] < a /\ l[2] = 0 /\ l[3])
-\* KF-C13-notify-before-unlock: the run notified (flag was set) before it released the worker lock; the tick
-\* issued in reaction found the lock still held, reported running and re-armed, and no run was left to notify.
-KfNotifyBeforeUnlock(run) ==
-  LET t0 == run.lastTick.seq  t1 == run.lastTick.rseq IN
-  /\ \E f \in run.tryFails : f > t0 /\ f < t1 /\ \E r \in run.runEnds : r > f
-  /\ \E nn \in run.notifies : nn[1] < t0 /\ nn[3] /\ \A r \in run.runEnds : r < nn[1] \/ r > t0
-  /\ ~\E l \in run.snLoads : l[1] > t0
-KnownId(run, clause) ==
-  IF clause = "lost_wakeup_tick_reported_running_but_no_notify_followed" /\ KfFlagReadBeforeArm(run) THEN "KF-C13-flag-read-before-arm"
-  ELSE IF clause = "lost_wakeup_tick_reported_running_but_no_notify_followed" /\ KfNotifyBeforeUnlock(run) THEN "KF-C13-notify-before-unlock"
-  ELSE ""
+\* ---- known findings: none at this level any more.  The two schedule signatures of the lost wake-up that used to be
+\* recognised here (flag read before the tick re-armed it; notify before the unlock) were repaired in the code
+\* (known_findings.json, `fixed`); any lost wake-up is a violation again.
+KnownId(run, clause) == ""
 
 PushNotifyFails(run, c, e) ==   \* an injector call c returning at event e
   LET mine == {nn \in run.notifies : nn[2] = c.tid /\ nn[1] > c.seq /\ nn[1] < e.seq}
@@ -190,7 +175,7 @@ Step ==
         ELSE IF e.site = "atomic" THEN
              /\ nrun' = IF e.loc = "active" /\ e.op = "store" THEN [nrun EXCEPT !.stores = @ \cup {<<e.seq, e.tid>>}]
                         ELSE IF e.loc = "should_notify" /\ e.op = "load"
-                             THEN [nrun EXCEPT !.snLoads = @ \cup {<<e.seq, e.val, e.tid \in DOMAIN nrun.lastSite /\ nrun.lastSite[e.tid] = "run.notify_check">>}]
+                             THEN [nrun EXCEPT !.snLoads = @ \cup {<<e.seq, e.val, e.tid \in DOMAIN nrun.lastSite /\ nrun.lastSite[e.tid] = "run.unlocked">>}]
                         ELSE IF e.loc = "should_notify" /\ e.op = "store" /\ e.val = 1 THEN [nrun EXCEPT !.snArms = @ \cup {e.seq}]
                         ELSE nrun
              /\ nstat' = [nstat EXCEPT !.events = @ + 1]
